@@ -875,6 +875,16 @@ class SymBytes:
     def __contains__(self, x):
         if isinstance(x, (bytes, bytearray, SymBytes)):
             raise Unsupported("subsequence test on symbolic bytes")
+        if isinstance(x, (int, SymInt)) and len(self.items) > 8:
+            # one decision on the disjunction instead of one fork per element
+            terms = []
+            for b in self.items:
+                e = b == x
+                if isinstance(e, SymBool):
+                    terms.append(e.t)
+                elif e:
+                    return True
+            return ctx().decide(z3.Or(*terms)) if terms else False
         for b in self.items:
             if b == x:  # forks per element
                 return True
